@@ -218,6 +218,20 @@ theorem secret_toggle_old_writes_shared : ∃ s : Stream,
   ⟨{ key := some 1, encrypted := true, dig := { finalSend := some .zero, finalRecv := some .zero } },
    ⟨rfl, rfl, fun _ => rfl, rfl⟩, by decide⟩
 
+/-- **keyed_plain_secret_writes_shared** — the state `directions_independent` leaves out
+    (`Established` demands that a keyed stream is encrypting), and why: on a stream that HOLDS a key
+    but is not encrypting (C09's state), `PutSecret`'s prepare step, as the code has it today,
+    changes the crypto mode — a field of the part both directions read — so a goroutine receiving on
+    the same stream decides whether to decrypt by a flag the sending goroutine is flipping. Recorded
+    finding F-C17-keyed-plain-secret-toggle (shown on the real streams by the race engine's
+    `stream-secret-keyed-plain` workload: data races and disturbed transfers). -/
+theorem keyed_plain_secret_writes_shared : ∃ s : Stream,
+    (Dir.shared s).finalSend.isSome = true ∧ (Dir.shared s).finalRecv.isSome = true ∧
+    s.key.isSome = true ∧ s.encrypted = false ∧ ¬ Dir.Established (Dir.shared s) ∧
+    Dir.shared (Dir.prepareSecret s) ≠ Dir.shared s :=
+  ⟨{ key := some 1, encrypted := false, dig := { finalSend := some .zero, finalRecv := some .zero } },
+   rfl, rfl, rfl, rfl, by intro h; exact absurd (h.2.2.1 rfl) (by decide), by decide⟩
+
 /-! Non-vacuity (tests). -/
 
 -- the table is not empty and contains the methods the property names
